@@ -471,6 +471,18 @@ impl TypeChecker {
         }
         self.symbols.exit_scope();
 
+        for (elif_condition, elif_body) in &if_stmt.elif_branches {
+            let cond_ty = self.check_expr(elif_condition);
+            let is_compatible = self.types_compatible(&cond_ty, &ResolvedType::Bool);
+            ensure_bool_condition(&cond_ty, elif_condition.span, is_compatible, &mut self.errors);
+
+            self.symbols.enter_scope(ScopeKind::Block);
+            for stmt in elif_body {
+                self.check_statement(stmt);
+            }
+            self.symbols.exit_scope();
+        }
+
         if let Some(else_body) = &if_stmt.else_body {
             self.symbols.enter_scope(ScopeKind::Block);
             for stmt in else_body {
